@@ -450,3 +450,28 @@ Qed.
 (** the hypotheses of [elvish_generate_structure_src] hold for the example tree (its scripts: [elvish_structure_nonvacuous]) *)
 Example elvish_src_hyps : cmd_plain el_plain ex_tree = true /\ el_plainl [112] = true.
 Proof. split; vm_compute; reflexivity. Qed.
+
+(** coverage for [clap_complete::aot::generate] as a whole: ONE script, every path of the built tree *)
+Theorem elvish_generate_covers c t bin : bin <> [] ->
+  exists b script,
+    build (set_bin_name c bin) = Some b /\ generate_elvish c t bin = Some script /\
+    forall ws ns n, reach b ws ns n ->
+      exists tn,
+        infix (case_block (path_key bin ws) (entries el_fmt n tn)) script /\
+        (forall a s0 s, In a (c_args n) -> a_is_positional a = false -> a_short a = Some s0 ->
+           (s = s0 \/ In (s, true) (a_short_aliases a)) ->
+           exists tip, infix (el_short s tip) (entries el_fmt n tn)) /\
+        (forall a l0 l, In a (c_args n) -> a_is_positional a = false -> a_long a = Some l0 ->
+           (l = l0 \/ In (l, true) (a_aliases a)) ->
+           exists tip, infix (el_long l tip) (entries el_fmt n tn)) /\
+        (forall sc w, In sc (c_subs n) -> In w (get_name_and_visible_aliases sc) ->
+           exists tip, infix (el_sub w tip) (entries el_fmt n tn)).
+Proof.
+  intros Hne. destruct (build (set_bin_name c bin)) as [b|] eqn:Hb; [|exfalso; exact (build_total _ Hb)].
+  destruct (tbuild_total _ b t Hb) as [tb Htb].
+  pose proof (build_root_bin c bin b Hb) as Hbin. pose proof (build_bins_built _ _ Hb) as Hbb.
+  exists b, (render bin (gi el_fmt b tb [])). split; [reflexivity|]. split.
+  - unfold generate_elvish. rewrite Hb, Htb. apply generate_spec; assumption.
+  - intros ws ns n Hr. destruct (elvish_covers b tb bin ws ns n Hbin Hne Hbb Hr) as (script & tn & G & H).
+    rewrite (generate_spec b tb bin Hbin Hbb) in G. inversion G; subst script. exists tn. exact H.
+Qed.
